@@ -12,6 +12,7 @@ import (
 
 	"github.com/llir/llvm/ir"
 	"github.com/llir/llvm/ir/constant"
+	"github.com/llir/llvm/ir/enum"
 	"github.com/llir/llvm/ir/types"
 	"github.com/llir/llvm/ir/value"
 )
@@ -214,6 +215,20 @@ func runC15(c *config) {
 				c15SuccsLive(c, f)
 			}
 		}
+		// edit histories (c15hist.go): after an earlier Operands() call the operand fields are assigned anew, or the
+		// struct is copied by value and the copy's fields are assigned; the slots must be those of the struct as it is
+		if m4, oc, _ := parseGuard(src); oc == ocOk {
+			for _, f := range m4.Funcs {
+				for _, b := range f.Blocks {
+					for _, in := range b.Insts {
+						c15History(c, in.(c15User), strings.TrimPrefix(fmt.Sprintf("%T", in), "*ir."))
+					}
+					if b.Term != nil {
+						c15History(c, b.Term.(c15User), strings.TrimPrefix(fmt.Sprintf("%T", b.Term), "*ir."))
+					}
+				}
+			}
+		}
 		// correspondence for the cache model: histories of Succs() queries and target writes
 		if m3, oc, _ := parseGuard(src); oc == ocOk {
 			for fi, f := range m3.Funcs {
@@ -263,6 +278,32 @@ func runC15(c *config) {
 		o.Stat("constructed_then_extended")
 		if oc, msg := guard(func() error { c15Succs(c, f); return nil }); oc != ocOk {
 			o.Fail("succs_are_targets", "", "Succs() of a constructed terminator holds something that is no block (the walk over it panics)", map[string]string{"term": fmt.Sprintf("variant %d", variant), "msg": msg})
+		}
+		if bs[0].Term != nil {
+			c15History(c, bs[0].Term.(c15User), "constructed:"+strings.TrimPrefix(fmt.Sprintf("%T", bs[0].Term), "*ir."))
+		}
+	}
+	// constructed instructions with operand lists (the constructors keep the caller's slices), same histories
+	{
+		m := ir.NewModule()
+		callee := m.NewFunc("callee", types.I32, ir.NewParam("", types.I32), ir.NewParam("", types.I64))
+		arr := types.NewArray(4, types.I32)
+		f := m.NewFunc("f", types.Void, ir.NewParam("a", types.NewPointer(arr)), ir.NewParam("i", types.I64), ir.NewParam("j", types.I64), ir.NewParam("x", types.I32))
+		b0, b1 := f.NewBlock("b0"), f.NewBlock("b1")
+		var built []c15User
+		built = append(built, b0.NewGetElementPtr(arr, f.Params[0], constant.NewInt(types.I64, 0), f.Params[1]))
+		built = append(built, b0.NewGetElementPtr(arr, f.Params[0], []value.Value{f.Params[1], f.Params[2]}...))
+		built = append(built, b0.NewCall(callee, f.Params[3], f.Params[1]))
+		built = append(built, b1.NewPhi(ir.NewIncoming(f.Params[3], b0), ir.NewIncoming(constant.NewInt(types.I32, 7), b1)))
+		lp := b1.NewLandingPad(types.NewStruct(types.I8Ptr, types.I32), ir.NewClause(enum.ClauseTypeCatch, constant.NewNull(types.I8Ptr)))
+		lp.Cleanup = true
+		built = append(built, lp)
+		built = append(built, b1.NewCleanupPad(constant.None, f.Params[1], f.Params[3]))
+		built = append(built, b1.NewAdd(f.Params[3], f.Params[3]))
+		built = append(built, b0.NewInvoke(callee, []value.Value{f.Params[3], f.Params[2]}, b1, b1))
+		for _, u := range built {
+			o.Stat("constructed_with_operand_lists")
+			c15History(c, u, "constructed:"+strings.TrimPrefix(fmt.Sprintf("%T", u), "*ir."))
 		}
 	}
 	o.StatN("kinds_reached", len(kinds))
